@@ -96,6 +96,14 @@ theorem c18_error_feed_agrees_with_evaluated_source :
     Gen.feedTable.map (·.1) = [1, 2, 3, 4] ∧ ctxShownTo 0 = some none := by
   decide +kernel
 
+/-- The prompts of the tool loop: on the code under test (stub and real `Mitochondria`, fresh and reused nucleus)
+    every provider call after the first — the later rounds and the final completion — carried the results of
+    the tool executions of the round just before it and of no other round, as in the model
+    (`c18_tool_loop_prompts_threaded`). -/
+theorem c18_tool_prompts_agree_with_evaluated_source :
+    Gen.threadTable.map (·.2) = promptsSeen.map some ∧ promptsSeen = [[], [0], [1], [2]] := by
+  decide +kernel
+
 end Evaluated
 
 end Operon.Loops
